@@ -1,7 +1,7 @@
 """C01 Round trip for every length, mode and thread count (necessary structural conditions)."""
 from .common import combined
 LEVEL = 'other'
-RULES = ('R01.a', 'R01.b', 'R01.c', 'R01.d', 'R01.e', 'R01.f', 'R01.g', 'R01.h', 'R02.d', 'R04.e', 'R03.b', 'R01.i', 'R10.s', 'R10.d', 'R03.c', 'R09.a', 'R09.k', 'R09.e', 'R09.d', 'R09.t', 'R04.g', 'R04.f', 'R15.b', 'R14.t', 'R01.j', 'R01.k', 'M1', 'M2', 'M3', 'M4', 'M5', 'R01.u', 'R02.r')
+RULES = ('R01.a', 'R01.b', 'R01.c', 'R01.d', 'R01.e', 'R01.f', 'R01.g', 'R01.h', 'R02.d', 'R04.e', 'R03.b', 'R01.i', 'R10.s', 'R10.d', 'R03.c', 'R09.a', 'R09.k', 'R09.e', 'R09.d', 'R09.t', 'R04.g', 'R04.f', 'R15.b', 'R14.t', 'R01.j', 'R01.k', 'M1', 'M2', 'M3', 'M4', 'M5', 'R01.u', 'R02.r', 'R03.f')
 
 
 def run(prog, rec, tier):
